@@ -51,13 +51,17 @@ Definition side15 (e : env) (fuel : nat) (p : pkg) (n : string) (accs : list acc
 Definition src15 (e : env) (fuel : nat) (jb : job) := side15 e fuel PSrc (j_src jb) (j_src_acc jb) (j_src_ctor jb).
 Definition dst15 (e : env) (fuel : nat) (jb : job) := side15 e fuel PDst (j_dst jb) (j_dst_acc jb) (j_dst_ctor jb).
 
-(* source tags, keyed by the matching name *)
+(* source tags as written, keyed by the name under which the field takes part (its own
+   name if exported, Pascal(x) for an unexported x).  shoot keys by the Pascal form of
+   every name and compares the Pascal form of the tag only: K_map_tag_underscore,
+   guard [tag_guard15] *)
 Definition tags15 (e : env) (jb : job) : tagmap :=
   match struct_fields e PSrc (j_src jb) with
   | None => []
   | Some fs =>
       rev (flat_map (fun f => if negb (sf_emb f) && negb (String.eqb (sf_tag f) "") && negb (String.eqb (sf_tag f) "-")
-                              then [(to_pascal_case (sf_name f), to_pascal_case (sf_tag f))] else []) fs)
+                              then [(if is_exported (sf_name f) then sf_name f else to_pascal_case (sf_name f), sf_tag f)]
+                              else []) fs)
   end.
 
 Definition pairs15 (e : env) (fuel : nat) (jb : job) (to_dir : bool) : list (aleaf * aleaf * strategy) :=
@@ -230,16 +234,38 @@ Definition dir_guard15 (e : env) (fuel : nat) (jobs : list job) (jb : job) (to_d
        | SAssign => true
        end) (pairs15 e fuel jb to_dir).
 
-Definition job_guard15 (e : env) (fuel : nat) (jobs : list job) (jb : job) : bool :=
-  if plain_job jb then job_guard e fuel jobs jb
+(* K_map_tag_underscore on a shoot-new side: a tagged EXPORTED field is its own Pascal form,
+   and the tag reaches every destination name it names *)
+Definition tag_guard15 (e : env) (fuel : nat) (jb : job) : bool :=
+  match struct_fields e PSrc (j_src jb) with
+  | None => true
+  | Some fs =>
+      forallb (fun f =>
+        sf_emb f || String.eqb (sf_tag f) "" || String.eqb (sf_tag f) "-"
+        || ((negb (is_exported (sf_name f)) || String.eqb (to_pascal_case (sf_name f)) (sf_name f))
+            && forallb (fun d => negb (same_name (j_ic jb) (sf_tag f) (l_name (al_leaf d)))
+                                 || same_name (j_ic jb) (to_pascal_case (sf_tag f)) (l_name (al_leaf d)))
+                       (dst15 e fuel jb))) fs
+  end.
+
+(* the guard knows which directions are generated (-way): a clause only the missing
+   direction needs does not exclude the pair *)
+Definition job_guard15_w (w : way) (e : env) (fuel : nat) (jobs : list job) (jb : job) : bool :=
+  if plain_job jb then job_guard_w w e fuel jobs jb
   else
+    tag_guard15 e fuel jb &&
     (match j_src_acc jb, j_src_ctor jb with [], [] => side_guard e fuel PSrc (j_src jb) | _, _ => sn_side e fuel PSrc (j_src jb) (j_src_acc jb) end)
     && (match j_dst_acc jb, j_dst_ctor jb with [], [] => side_guard e fuel PDst (j_dst jb) | _, _ => sn_side e fuel PDst (j_dst jb) (j_dst_acc jb) end)
     && match j_manual_to jb, j_manual_from jb with None, None => true | _, _ => false end
-    && dir_guard15 e fuel jobs jb true && dir_guard15 e fuel jobs jb false.
+    && (negb (has_to w) || dir_guard15 e fuel jobs jb true)
+    && (negb (has_from w) || dir_guard15 e fuel jobs jb false).
 
-Definition pair_guard15 (e : env) (fuel : nat) (jobs : list job) : bool :=
-  forallb (job_guard15 e fuel jobs) jobs.
+Definition job_guard15 := job_guard15_w WBoth.
+
+Definition pair_guard15_w (w : way) (e : env) (fuel : nat) (jobs : list job) : bool :=
+  forallb (job_guard15_w w e fuel jobs) jobs.
+
+Definition pair_guard15 (e : env) (fuel : nat) (jobs : list job) : bool := pair_guard15_w WBoth e fuel jobs.
 
 (* ------------------------------------------------ names and storage *)
 (* the storage a written reference touches: a plain field its own path, a setter
@@ -248,11 +274,13 @@ Definition write_path (accs : list accessor) (r : fref) : option path :=
   if r_acc r then acc_path accs (r_name r) else Some (r_path r).
 
 (* everything that can be written on one side, by name: plain exported fields,
-   setters, constructor parameters (named like the setter of their field) *)
+   setters, constructor parameters bound to a field (named like the setter of that
+   field; a parameter the constructor body does not store in a field of the type
+   itself has cp_field = "" and is called "Set": it never receives a mapped value) *)
 Definition writables (fl : list field) (accs : list accessor) (ctor : list cparam) : list (string * path) :=
   map (fun f => (f_name f, f_path f)) fl
   ++ map (fun a => (ac_name a, ac_path a)) (filter ac_set accs)
-  ++ map (fun c => (f_name (ctor_field c), cp_path c)) ctor.
+  ++ map (fun c => (f_name (ctor_field c), cp_path c)) (filter (fun c => negb (String.eqb (cp_field c) "")) ctor).
 
 (* the storage determines the name: no two setters (or a setter and a plain field,
    or a parameter and a differently named setter) write the same path *)
